@@ -130,3 +130,115 @@ def rule(F, rep, rid):
             if not ok:
                 rep.violation(R, "do_std_object_has_ex|hidden=%d" % flag, "std.objectHasEx with hidden=%s asks %s, expected %s"
                               % (bool(flag), sorted(seen_q), sorted(exp)), c.loc)
+
+
+VIS = "rsjsonnet_lang::ast::Visibility"
+# functions that *compute* the merged visibility (Default inherits, ForceVisible overrides): they must tell the three apart
+PARTITION_EXEMPT = RESOLVERS + ("<rsjsonnet_lang::program::analyze::Analyzer>", "rsjsonnet_lang::program::analyze")
+
+
+def _const_variant(F, fn, body, bb, x):
+    """variant name of a `&Visibility` operand that is (a reference to) a constant, else None"""
+    if x.get("k") == "const":
+        if "promoted" in x:
+            return _promoted_variant(fn, x["promoted"])
+        return None
+    if x.get("k") not in ("move", "copy") or x["p"]:
+        return None
+    l = x["l"]
+    for _ in range(6):
+        d = None
+        for st in body.blocks[bb]["s"]:
+            if st["k"] == "assign" and st["p"]["l"] == l and not st["p"]["p"]:
+                d = st["rv"]
+        if d is None:
+            # single assignment elsewhere in the function
+            ds = [st["rv"] for blk in body.blocks for st in blk["s"]
+                  if st["k"] == "assign" and st["p"]["l"] == l and not st["p"]["p"]]
+            if len(ds) != 1:
+                return None
+            d = ds[0]
+        if d["k"] == "agg" and d.get("ak") == "adt" and d.get("adt") == VIS:
+            return d["v"]
+        if d["k"] == "use" and d["x"]["k"] == "const":
+            if "promoted" in d["x"]:
+                return _promoted_variant(fn, d["x"]["promoted"])
+            return None
+        if d["k"] == "use" and d["x"]["k"] in ("move", "copy") and not [p for p in d["x"]["p"] if p != "*"]:
+            l = d["x"]["l"]
+            continue
+        if d["k"] == "ref" and not [p for p in d["p"]["p"] if p != "*"]:
+            l = d["p"]["l"]
+            continue
+        return None
+    return None
+
+
+def _promoted_variant(fn, idx):
+    proms = fn.promoted
+    if idx >= len(proms):
+        return None
+    for blk in proms[idx].blocks:
+        for st in blk["s"]:
+            if st["k"] == "assign" and st["rv"]["k"] == "agg" and st["rv"].get("adt") == VIS:
+                return st["rv"]["v"]
+    return None
+
+
+def rule_partition(F, rep, rid):
+    """V3: outside the resolvers a (merged) visibility is only ever asked one question: hidden or not."""
+    R = rep.rule(rid, "consumers of a field's visibility (deep forcing, manifesters, objectFields, -m) only separate Hidden from "
+                 "the rest: every `==`/`!=` on ast::Visibility outside the resolvers compares with Hidden, and every `match` "
+                 "on it sends Default and ForceVisible (`:` and `:::`) to the same arm")
+    n_sites = 0
+    for fn in F.fn_list:
+        q = fn.q
+        if fn.body is None or not ("rsjsonnet_lang::program" in q):
+            continue
+        if any(q == r or q.startswith(r + "::") or q.startswith(r) for r in PARTITION_EXEMPT):
+            continue
+        body = fn.body
+        owner = fn
+        # closures keep their promoteds with themselves
+        for bb, t in body.calls():
+            d = t["f"].get("d") or ""
+            if d not in ("core::cmp::PartialEq::eq", "core::cmp::PartialEq::ne"):
+                continue
+            st = t["f"].get("self")
+            sty = body.ty(st) if st is not None else None
+            while sty is not None and sty["k"] == "ref":
+                sty = body.ty(sty["t"] if "t" in sty else sty["e"])
+            if not sty or sty.get("k") != "adt" or sty.get("d", sty.get("s")) not in (VIS,) and VIS not in str(sty.get("s")):
+                continue
+            n_sites += 1
+            vs = [_const_variant(F, owner, body, bb, x) for x in t["xs"]]
+            consts = [v for v in vs if v]
+            ok = consts == ["Hidden"] or consts == ["Hidden", "Hidden"]
+            rep.ob(R, "%s|bb%d|cmp" % (q, bb), ok, {"fn": q, "compares_with": consts})
+            if not ok:
+                rep.violation(R, "%s|visibility-compare|%s" % (q, ",".join(consts) or "non-constant"),
+                              "%s compares a field visibility with %s: outside the resolvers the only meaningful question is "
+                              "`!= Hidden` — `:` (Default) and `:::` (ForceVisible) fields are both visible, so a test that "
+                              "separates them forces / lists / writes one kind and skips the other"
+                              % (q, " / ".join(consts) or "another non-constant visibility"), fn.loc)
+        for bb, blk in enumerate(body.blocks):
+            if blk["cleanup"]:
+                continue
+            for st in blk["s"]:
+                if st["k"] == "assign" and st["rv"]["k"] == "discr" and st["rv"].get("adt") == VIS:
+                    t = blk["t"]
+                    if t["k"] != "switch":
+                        continue
+                    n_sites += 1
+                    arms = dict(t["arms"])
+                    # variant discriminants: Default=0, Hidden=1, ForceVisible=2 (read from the ADT)
+                    disc = {v["n"]: v["discr"] for v in F.adt(VIS)["variants"]}
+                    td = arms.get(disc["Default"], t["else"])
+                    tf = arms.get(disc["ForceVisible"], t["else"])
+                    ok = td == tf
+                    rep.ob(R, "%s|bb%d|match" % (q, bb), ok)
+                    if not ok:
+                        rep.violation(R, "%s|visibility-match|Default-vs-ForceVisible" % q,
+                                      "%s matches on a field visibility and treats Default (`:`) and ForceVisible (`:::`) "
+                                      "differently; both are visible" % q, fn.loc)
+    rep.floor(R, n_sites, 4, "visibility tests outside the resolvers")
